@@ -332,6 +332,7 @@ func main() {
 		// isolated: if the group check is missing, Hash runs modular exponentiations with modulus 0
 		// or huge moduli and can allocate without bound; the worker's address-space limit turns that
 		// into a "crash" verdict for the witness instead of taking the machine down.
+		zero := kit.NewFamily(c, "zero-top", evalZero)
 		invalid := kit.NewIsolatedFamily(c, "invalid-group", runtime.NumCPU(), 1536, evalInvalid)
 		if c.Replaying() {
 			return
@@ -377,6 +378,11 @@ func main() {
 			"password itself) x secrets {stream256} x groups %v x salts %v with honest srp_B. Oracle: A equals g^a mod p as a number and M1 equals "+
 			"byte-for-byte the value of a reference client written from the SRP page; for honest srp_B a reference SRP-6a verifier holding v, b "+
 			"accepts (A, M1) iff the tried password equals the verifier's password. "+
+			"zero-top: for each of these (group/g) and each of g_a, g_b (srp_B as received), t = g_b - k_v, s_a, k_v, v (2048-bit form) and u, x "+
+			"(256-bit form), the first case - found by a deterministic search with the reference over client secrets a = base+i, server secrets "+
+			"b = base+j or salt2 = 'c15zt-s2'+index - in which that number has a zero top byte, and (production group; thorough every group; "+
+			"s_a: thorough, production group) two zero top bytes; eval asserts the property on the reference values, then applies the same oracle "+
+			"(A, M1 = reference, verifier accepts). "+
 			"invalid-group: Hash must return an error for p in {each embedded group +-1, +-2, (p-1)/2, 2p+1, p+2^2048; 2048-bit primes with composite "+
 			"(p-1)/2; composite 2q+1; 2048-bit semiprime; 2^2047, 2^2047+-1, 2^2048-1, 2^2048; 0; 1; 23; 1024-/3072-bit safe primes} x g in "+
 			"{-1..10} and for every embedded safe prime with g outside 2..7 or a non-residue g. distinct = distinct witnesses with known names.",
@@ -435,6 +441,34 @@ func main() {
 		}
 
 		c.Set("phase_answer_s", time.Since(t0).Seconds())
+
+		// zero-top: every group of this tier; two-zero-byte variants of the cheap quantities on the
+		// production group (thorough: every group), of s_a on the production group in thorough only
+		two := map[string]bool{"telegram/3": true}
+		saTwo := map[string]bool{}
+		if c.Thorough() {
+			for _, g := range groups {
+				two[g] = true
+			}
+			saTwo["telegram/3"] = true
+		}
+		zcases, missing := ztSearch(c, groups, two, saTwo, workers)
+		c.Set("phase_zero_search_s", time.Since(t0).Seconds())
+		if len(missing) > 0 {
+			fmt.Fprintln(os.Stderr, "C15: INFRASTRUCTURE: zero-top search found no case for", missing)
+			os.Exit(2)
+		}
+		kit.Parallel(len(zcases), workers, func(i int) {
+			if zero.Eval(zcases[i]) {
+				c.AddInt("zero_top_cases", 1)
+				c.AddInt(fmt.Sprintf("zero_top_cases_%s_%dB", zcases[i].Quantity, zcases[i].ZeroBytes), 1)
+			}
+		})
+		if ztVacuous.Load() > 0 {
+			fmt.Fprintln(os.Stderr, "C15: INFRASTRUCTURE: zero-top witnesses without the property; no verdict")
+			os.Exit(2)
+		}
+		c.Set("phase_zero_s", time.Since(t0).Seconds())
 		var inv []wInvalid
 		var cands []string
 		for _, g := range refexchange.Groups() {
